@@ -1,5 +1,25 @@
+import os
 import sys
+import traceback
+
 from mc.core import main
 
 if __name__ == "__main__":
-    sys.exit(main(sys.argv[1:]))
+    try:
+        rc = main(sys.argv[1:])
+    except SystemExit:
+        raise
+    except BaseException:
+        # a crash of the machinery is never a verdict: exit code 2 and no VIOLATION line (stdout may have been silenced: write to fd 1 / 2 directly)
+        tb = traceback.format_exc()
+        import mc.core as core
+        msg = "HARNESS-ERROR property=%s the check itself crashed: %s\n" % (sys.argv[1] if len(sys.argv) > 1 else "?", tb.strip().splitlines()[-1])
+        try:
+            if core._REAL is not None:
+                core._REAL[1].write(tb); core._REAL[0].write(msg); core._REAL[0].flush(); core._REAL[1].flush()
+            else:
+                os.write(2, tb.encode()); os.write(1, msg.encode())
+        except Exception:
+            pass
+        os._exit(2)
+    sys.exit(rc)
